@@ -734,6 +734,9 @@ def features(case):
          "body": case["body"], "trailers": case["trailers"]}
     for h in case["hdr"]:
         f["h:" + h] = True  # one flag per member of the header subset, so that a finding can name a single field
+    src_h1 = (case["cv"] if case["dir"] == "req" else case["sv"]) == "h1"
+    if src_h1 and any(h in ("obs_fold", "value_nul", "value_cr") for h in case["hdr"]):
+        f["h1_ctl_in_value"] = True  # an HTTP/1 field value containing CR LF SP (obs-fold), bare CR or NUL
     src = case["cv"] if case["dir"] == "req" else case["sv"]
     if src == "h1":
         f["data"] = bool((H1_BODIES if case["dir"] == "req" else H1_RESP_BODIES)[case["body"]][1])
@@ -929,7 +932,7 @@ def judge_response(case, feats, cv, sv, resp, seen_req, seen, method, t):
     if seen["status"] not in exp["status"]:
         problems.append(("status", seen["status"], exp["status"]))
     problems += compare_fields(exp["fields"], seen["fields"], to_h1)
-    if seen["body"] != exp["body"] and method != b"HEAD":
+    if seen["body"] != exp["body"] and not (to_h1 and exp.get("nobody")):
         problems.append(("body", seen["body"], exp["body"]))
     if [(n.lower(), v.strip(b" \t")) for n, v in seen["trailers"]] != [(n.lower(), v.strip(b" \t")) for n, v in exp["trailers"]] and not exp.get("nobody"):
         problems.append(("trailers", seen["trailers"], exp["trailers"]))
